@@ -565,6 +565,7 @@ def run_schemas(chk, nschemas, configs, values_per_msg, muts_per_image, max_imag
                                     k += 1
                             cols.append([''.join(x) for x in full])
                         it.model = cols
+        chk.log('model: guard requests answered')
         cchunks = [creqs[i::core.NPROC] for i in range(core.NPROC)]
         cchunks = [ch for ch in cchunks if ch]
         with cf.ThreadPoolExecutor(core.NPROC) as ex:
@@ -577,6 +578,8 @@ def run_schemas(chk, nschemas, configs, values_per_msg, muts_per_image, max_imag
                         it.cruns = []
                     else:
                         it.cmodel = [b.split('/') for b in blocks]
+        chk.log('model: cursor traversal requests answered (%d runs, %d setter runs)' % (
+            stats['cursor_runs'], stats['cursor_setter_runs']))
         kchunks = [kreqs[i::core.NPROC] for i in range(core.NPROC)]
         kchunks = [ch for ch in kchunks if ch]
         with cf.ThreadPoolExecutor(core.NPROC) as ex:
